@@ -34,7 +34,14 @@ def layouts(draw, max_blocks=6, presentations=("shape", "spacing_exact", "adjust
         dx = draw(st.one_of(st.sampled_from([1.0, 0.5, 3.0, 10.0, 0.1]), gen.log_uniform(-2, 3)))
         dy = draw(st.one_of(st.sampled_from([1.0, 0.5, 3.0, 10.0, 0.1]), gen.log_uniform(-2, 3)))
     pres = draw(st.sampled_from(list(presentations)))
+    pixel = draw(st.sampled_from(PIXEL_DTYPES)) if not nice else None
+    if pixel:
+        # "pixel" layouts: integer block grid, integer-valued coordinates stored with a narrow / unsigned / single-precision dtype, region and spacing as Python ints
+        W, S = float(draw(st.integers(40, 1000))), float(draw(st.integers(40, 1000)))
+        dx, dy = float(draw(st.sampled_from([2, 3, 4, 5, 8, 10, 20]))), float(draw(st.sampled_from([2, 3, 4, 5, 8, 10, 20])))
     lay = dict(W=W, S=S, dx=dx, dy=dy, nb_n=nb_n, nb_e=nb_e, pres=pres)
+    if pixel:
+        lay["pixel"] = pixel
     if pres in ("adjust_spacing", "adjust_region", "inferred_spacing"):
         lay["te"] = draw(st.sampled_from([-0.4, -0.25, 0.1, 0.3, 0.4, 0.0]))
         lay["tn"] = draw(st.sampled_from([-0.4, -0.25, 0.1, 0.3, 0.4, 0.0]))
@@ -43,14 +50,37 @@ def layouts(draw, max_blocks=6, presentations=("shape", "spacing_exact", "adjust
     return lay
 
 
+PIXEL_DTYPES = [None] * 5 + ["uint16", "uint32", "uint64", "int16", "int32", "float32"]
+
+
+def pixel_array(lay, a):
+    """Integer-valued version of coordinate array *a* in the layout's pixel dtype (unchanged for ordinary layouts)."""
+    if not lay.get("pixel"):
+        return a
+    a = np.rint(a)
+    if lay["pixel"].startswith("uint"):
+        a = np.clip(a, 0, None)
+    return a.astype(lay["pixel"])
+
+
+def _plain(v):
+    return int(v) if float(v).is_integer() else v
+
+
 def effective_region(lay):
     return [lay["W"], lay["W"] + lay["nb_e"] * lay["dx"], lay["S"], lay["S"] + lay["nb_n"] * lay["dy"]]
 
 
-def verde_kwargs(lay):
+def verde_kwargs(lay, _raw=False):
     """Arguments (spacing/shape/region/adjust) that make verde use the
     effective grid.  For 'inferred' the caller must include the SW and NE
     corners of the effective region among the points."""
+    if lay.get("pixel") and not _raw:
+        kw = verde_kwargs(lay, _raw=True)
+        for key in ("region", "spacing"):
+            if key in kw:
+                kw[key] = tuple(_plain(v) for v in kw[key]) if isinstance(kw[key], tuple) else _plain(kw[key])
+        return kw
     W, E, S, N = effective_region(lay)
     pres = lay["pres"]
     if pres == "shape":
@@ -99,6 +129,14 @@ def grid_from_kwargs(kw, coords=None):
 
 def point_xy(lay, p):
     kx, fx, ky, fy = p
+    if lay.get("pixel"):
+        # integer positions; a point meant to be strictly inside a block stays strictly inside
+        def pos(lo, k, f, d):
+            off = round(f * d)
+            if 0 < f < 1 and d >= 2:
+                off = min(max(off, 1), int(d) - 1)
+            return lo + k * d + off
+        return pos(lay["W"], kx, fx, lay["dx"]), pos(lay["S"], ky, fy, lay["dy"])
     return lay["W"] + (kx + fx) * lay["dx"], lay["S"] + (ky + fy) * lay["dy"]
 
 
